@@ -300,7 +300,7 @@ def _invariants(ctx, sig, obj, inst, what):
             ok = False
         else:
             edges = pmax - pmin
-            if np.any(np.abs(np.asarray(m.cell) * n - edges) > 8 * np.spacing(np.abs(edges))):
+            if C.gt(np.abs(np.asarray(m.cell) * n - edges), 8 * np.spacing(np.abs(edges))):
                 ctx.fail(f"{sig}/cell-times-n", f"{what}: cell*n={np.asarray(m.cell) * n} edges={edges}", instance=inst)
     if isinstance(obj, df.Field):
         if obj.array.shape != (*[int(i) for i in obj.mesh.n], obj.nvdim):
